@@ -50,7 +50,8 @@ def toTVOp (s : St) : Op → Option (Vecs.Op Nat)
   | .reserve n => some (.reserve n)
   | .shrinkFit => some .shrinkToFit
   | .roundtrip => if s.v.len ≤ rtCap then some (.from .other 0 (absL s)) else none
-  | .tryPush | .tryInsert _ | .resizeWith _ | .intoIter _ _ | .clone | .dropVec => none
+  | .tryPush | .tryInsert _ | .resizeWith _ | .intoIter _ _ | .clone | .dropVec | .popIf _
+  | .fromIter _ _ => none
 
 theorem afterReserve_bridge {v : Vec} {alT add : Nat} (xs : List Nat)
     (f : TV Nat → Outcome Nat × TV Nat) (hlen : v.len = xs.length)
@@ -167,6 +168,18 @@ theorem tExtIterLoop_refines (alT mn : Nat) (ha : AlignOk alT) : ∀ (k i : Nat)
       obtain ⟨r1, L', r2, r3, r4⟩ := ih
       exact ⟨r1, L', r2, r3, r4⟩
 
+theorem tExtIterLoop_budget (mn : Nat) : ∀ (k i : Nat) (s : St), s.mem.budget = none →
+    (tExtIterLoop mn i k s).2.mem.budget = none
+  | 0, i, s, hb => by
+    simp only [tExtIterLoop]; exact (Mem.tick_of_none hb).2
+  | k + 1, i, s, hb => by
+    unfold tExtIterLoop
+    obtain ⟨m', e1, e2, _, _⟩ := Mem.genVal_of_none hb
+    simp only [St.onMem_eq, e1]
+    refine tExtIterLoop_budget mn k (i + 1) _ ?_
+    simp only [St.store, St.wr, St.setLen]
+    split <;> split <;> first | exact e2 | rfl
+
 theorem reserve_cap_le {v : Vec} (add : Nat) (hpos : 0 < v.h.esz) :
     (v.reserve add).cap ≤ max v.cap (max (v.len + add) (v.cap * 2) + 7) := by
   rw [Vec.reserve_cap]
@@ -176,6 +189,37 @@ theorem reserve_cap_le {v : Vec} (add : Nat) (hpos : 0 < v.h.esz) :
     · omega
     · have := roundCap_le hpos (max (v.len + add) (v.cap * 2)); omega
   · omega
+
+/-- `extend_iter` after its two leading user calls: `reserve(hint)` and the loop -/
+theorem tExtIter_refines {s loc locB} {L : List Nat} (alT hint n : Nat) (h : OwnL fl s loc locB)
+    (hv : LocalVec s.v L) (hb : s.mem.budget = none) (ht : s.v.h.thin = true)
+    (hal : s.v.h.alive = true) (ha : AlignOk alT) (he : s.v.h.esz ≤ 1024)
+    (hc : s.v.cap ≤ smallBound) (hsz : max hint n ≤ smallBound) :
+    (tExtIter hint n s).1 = false ∧
+    ∃ L', LocalVec (tExtIter hint n s).2.v L' ∧ HdrKeep s.v.h (tExtIter hint n s).2.v.h ∧
+      TV.afterReserve (⟨s.v.cap, L, s.v.h.esz, alT, 8, 8⟩ : TV Nat) hint
+          (fun s' => s'.extendLoop hint 0 (List.range' s.mem.next n)) =
+        (.ok .unit, ⟨(tExtIter hint n s).2.v.cap, L', s.v.h.esz, alT, 8, 8⟩) ∧
+      (tExtIter hint n s).2.mem.budget = none := by
+  have hle := hv.len_le
+  have hpos := h.esz_pos ht hal
+  have hc8 : s.v.cap ≤ 8 * smallBound := by omega
+  rw [show tExtIter hint n s = tExtIterLoop hint 0 n (s.reserve hint) from rfl]
+  rw [afterReserve_bridge L _ hv.1 hpos ha he hc8
+    (by rw [hv.1]; simp only [smallBound] at hc hsz ⊢; omega)]
+  have f0 := (h.reserve hint ht hal).1
+  obtain ⟨f1, f2, f3, f4, f5⟩ := reserve_facts hint h hv ht hal
+  have hcapr : (s.v.reserve hint).cap ≤ 8 * smallBound := by
+    have := reserve_cap_le (v := s.v) hint hpos
+    rw [hv.1] at this
+    simp only [smallBound] at hc hsz this ⊢; omega
+  have key := tExtIterLoop_refines alT hint ha n 0 (s.reserve hint) L loc locB f0 f1
+    (by rw [f5]; exact hb) (by rw [f3]; exact ht) (by rw [f3]; exact hal)
+    (by rw [f3]; exact he) (by rw [f2]; exact hcapr)
+    (by simp only [smallBound] at hc hsz ⊢; omega) (by intro; omega)
+  rw [f5, f2, f3] at key
+  obtain ⟨r1, L', r2, r3, r4⟩ := key
+  exact ⟨r1, L', r2, r3, r4, tExtIterLoop_budget hint n 0 _ (by rw [f5]; exact hb)⟩
 
 theorem tStep_refines {s loc locB} {L : List Nat} (alT : Nat) (op : Op) (vop : Vecs.Op Nat)
     (h : OwnL fl s loc locB) (hv : LocalVec s.v L) (hb : s.mem.budget = none)
@@ -321,24 +365,31 @@ theorem tStep_refines {s loc locB} {L : List Nat} (alT : Nat) (op : Op) (vop : V
   case extIter hint n =>
     subst hmap
     simp only [tStep, liftB, boolRet, TV.step, TV.extend]
-    rw [show tExtIter hint n s = tExtIterLoop hint 0 n (s.reserve hint) from rfl]
     simp only [Op.size] at hsz
-    rw [afterReserve_bridge L _ hv.1 hpos ha he hc8
-      (by rw [hv.1]; simp only [smallBound] at hc hsz ⊢; omega)]
-    have f0 := (h.reserve hint ht hal).1
-    obtain ⟨f1, f2, f3, f4, f5⟩ := reserve_facts hint h hv ht hal
-    have hcapr : (s.v.reserve hint).cap ≤ 8 * smallBound := by
-      have := reserve_cap_le (v := s.v) hint hpos
-      rw [hv.1] at this
-      simp only [smallBound] at hc hsz this ⊢; omega
-    have key := tExtIterLoop_refines alT hint ha n 0 (s.reserve hint) L loc locB f0 f1
-      (by rw [f5]; exact hb) (by rw [f3]; exact ht) (by rw [f3]; exact hal)
-      (by rw [f3]; exact he) (by rw [f2]; exact hcapr)
-      (by simp only [smallBound] at hc hsz ⊢; omega) (by intro; omega)
-    rw [f5, f2, f3] at key
-    obtain ⟨r1, L', r2, r3, r4⟩ := key
-    rw [r1, r4]
-    exact ⟨by simp [retMatch], L', r2, r3, rfl⟩
+    -- the two user calls before the loop (`into_iter`, `size_hint`) only move the call counter
+    unfold tExtend
+    obtain ⟨t1, t2, t3, t4, t5⟩ := St.tick_quiet hb
+    have h1 := h.tick
+    generalize s.onMem Mem.tick = r at t1 t2 t3 t4 t5 h1
+    obtain ⟨p0, s1⟩ := r
+    simp only at t1 t2 t3 t4 t5 h1 ⊢
+    subst t1
+    obtain ⟨u1, u2, u3, u4, u5⟩ := St.tick_quiet t4
+    have h2 := h1.tick
+    generalize s1.onMem Mem.tick = r at u1 u2 u3 u4 u5 h2
+    obtain ⟨p1, s2⟩ := r
+    simp only at u1 u2 u3 u4 u5 h2 ⊢
+    subst u1
+    simp only [Bool.false_eq_true, if_false]
+    have hvs : s2.v = s.v := by rw [u2, t2]
+    have key := tExtIter_refines (s := s2) (L := L) alT hint n h2 (by rw [hvs]; exact hv) u4
+      (by rw [hvs]; exact ht) (by rw [hvs]; exact hal) ha (by rw [hvs]; exact he)
+      (by rw [hvs]; exact hc) hsz
+    rw [hvs, u3, t3] at key
+    obtain ⟨r1, L', r2, r3, r4, r5⟩ := key
+    rw [r4, r1, (St.tick_quiet r5).1]
+    exact ⟨by simp [retMatch], L', by rw [St.onMem_v]; exact r2, by rw [St.onMem_v]; exact r3,
+      by rw [St.onMem_v]⟩
   case append n =>
     subst hmap
     obtain ⟨r, p⟩ := tAppend_spec n h hv ht hal
